@@ -66,7 +66,7 @@ KindRank(e) == CASE e.k = "any" -> 0 [] e.k = "eq" -> 1 [] e.k = "word" -> 2 [] 
 UsageRank(u) == CASE u = "bytes" -> 0 [] u = "numeric" -> 1 [] u = "unsigned" -> 2 [] u = "signed" -> 3
                   [] u = "bool" -> 4 [] u = "address" -> 5 [] u = "selector" -> 6 [] OTHER -> 7
 Key(e) == CASE e.k = "word" -> <<2, e.w, UsageRank(e.u)>>       \* None (0) sorts before Some(w)
-            [] e.k = "fix"  -> <<4, e.el, e.len>>
+            [] e.k = "fix"  -> <<4, e.len, e.el>>       \* shape (the length) before type variables
             [] e.k = "map"  -> <<5, e.key, e.val>>
             [] e.k = "dyn"  -> <<6, e.el, 0>>
             [] OTHER        -> <<KindRank(e), 0, 0>>
